@@ -64,6 +64,14 @@ pub fn run(a: &Args) {
     st.exhaustive.push(format!("all strings of length <= {maxlen} over a {}-character class alphabet (digits, '.', letters of both cases, 'e', '-', space, NUL, non-ASCII numerics, other)", alpha.len()));
     // 2. known versions, the 8-byte wire shape, long digit runs, random Unicode
     let known = ["0.7F", "0.7E15", "0.6W43", "0.04k", "0.7D64", "1A", "0.7A", "12.5Z9", "0.7", "", "0.7E0", "007.50B003", "99999999999999999999999999999999999999999A", "0.0000001A", "16777217A", "3.4028235e38A", "0.7A18446744073709551616", "0.7A18446744073709551615"];
+    // digit runs around and beyond usize::MAX / f32 range in the revision and in the number (arithmetic overflow must be an
+    // error, never a panic: the harness is built with overflow checks on)
+    let mut long: Vec<String> = vec![];
+    for len in [18usize, 19, 20, 21, 25, 40] { for lead in ["1", "9", "18446744073709551615", "18446744073709551616"] {
+        let mut d = lead.to_string(); while d.len() < len { d.push(char::from(b'0' + rng.below(10) as u8)); }
+        long.push(format!("0.7F{d}")); long.push(format!("{d}.5A3")); long.push(format!("0.{d}B")); long.push(format!("{d}Z{d}"));
+    } }
+    for s in &long { let _ = check(s, &mut st); st.evaluations += 1; st.bump("string:long digit runs"); }
     for s in known { let o = check(s, &mut st); st.evaluations += 1; if !s.contains("1844674407370955161") { out.case(&model_line(s), &o); } if o.starts_with("ok") { parsed.push(GameVersion::from_str(s).unwrap()); } }
     for _ in 0..(if a.thorough() { 300_000 } else { 30_000 }) {
         let len = rng.range(1, 12) as usize;
